@@ -142,6 +142,18 @@ where
     }
 }
 
+/// Run `f` on the single thread of a private rayon pool, so that the library's parallel loops and the thread-local
+/// hook traces / panic records all live on one thread (as in `run_parallel`).
+pub fn in_pool<T: Send>(f: impl FnOnce() -> T + Send) -> T {
+    #[cfg(feature = "par")]
+    {
+        let pool = rayon::ThreadPoolBuilder::new().num_threads(1).build().expect("pool");
+        pool.install(f)
+    }
+    #[cfg(not(feature = "par"))]
+    f()
+}
+
 // ------------------------------------------------------------------------------------------------
 // running the library
 
